@@ -21,7 +21,7 @@
    * a left operand of ^ that ends in a unit signature is parenthesised ("2 m ^ 3" is 2 (m^3));
    * an expression statement that starts "identifier =" is parenthesised (it would be an
      assignment), so is a condition clause that starts "identifier in" (it would be a
-     generator) and a positional argument that starts "identifier :" (never happens). *)
+     generator); a positional argument never starts "identifier :" (Proofs: no guard needed). *)
 From Ka Require Export Model.Syntax.
 Local Open Scope nat_scope.
 
@@ -83,7 +83,6 @@ Definition starts_var_with (t : tok -> bool) (ts : list tok) : bool :=
   match ts with KVar _ :: t' :: _ => t t' | _ => false end.
 Definition is_assign (t : tok) : bool := match t with KAssign => true | _ => false end.
 Definition is_in (t : tok) : bool := match t with KIn => true | _ => false end.
-Definition is_colon (t : tok) : bool := match t with KColon => true | _ => false end.
 (* parenthesise a token text that starts "identifier <t>" *)
 Definition guard (t : tok -> bool) (ts : list tok) : list tok := parens (starts_var_with t ts) ts.
 
@@ -107,7 +106,7 @@ Fixpoint raw (m : mode) (s : sst) : list tok :=
       KLBrack :: parens (wrap m 10 false a) (raw m a) ++ KComma :: parens (wrap m 10 false b) (raw m b) ++ [KRBrack]
   | SCall f args kw =>
       KVar f :: KLP ::
-        join KComma (map (fun e => guard is_colon (parens (wrap m 10 false e) (raw m e))) args
+        join KComma (map (fun e => parens (wrap m 10 false e) (raw m e)) args
                      ++ map (fun p => KVar (fst p) :: KColon :: parens (wrap m 10 false (snd p)) (raw m (snd p))) kw)
         ++ [KRP]
   | SArr l => KLBrace :: join KComma (map (fun e => parens (wrap m 10 false e) (raw m e)) l) ++ [KRBrace]
